@@ -699,6 +699,106 @@ fn grid(tier: Tier) -> Vec<Case> {
             }
         }
     }
+    // every SUBSET of the optional fields of each request type (small distinctive values)
+    let bit = |m: u32, i: u32| m & (1 << i) != 0;
+    for m in 0u32..(1 << 15) {
+        out.push(Case {
+            req: Req::Connect(ConnectSpec {
+                client_id: bit(m, 0).then(|| "cid".to_string()),
+                keep_alive: bit(m, 1).then_some(0x1234),
+                clean_start: bit(m, 2).then_some(true),
+                session_expiry: bit(m, 3).then_some(0x0102_0304),
+                receive_maximum: bit(m, 4).then_some(0x0506),
+                maximum_packet_size: bit(m, 5).then_some(0x0708_090a),
+                topic_alias_maximum: bit(m, 6).then_some(0x0b0c),
+                request_response_information: bit(m, 7).then_some(true),
+                request_problem_information: bit(m, 8).then_some(false),
+                auth_method: bit(m, 9).then(|| "am".to_string()),
+                auth_data: bit(m, 10).then(|| vec![0xd1, 0xd2]),
+                user_props: if bit(m, 11) { vec![("uk".into(), "uv".into())] } else { vec![] },
+                will: bit(m, 12).then(|| WillSpec { topic: "wt".into(), payload: vec![0xee], ..Default::default() }),
+                username: bit(m, 13).then(|| "un".to_string()),
+                password: bit(m, 14).then(|| vec![0xf1, 0xf2, 0xf3]),
+            }),
+            write: full.clone(),
+        });
+    }
+    for m in 0u32..(1 << 9) {
+        out.push(Case {
+            req: Req::Connect(ConnectSpec {
+                will: Some(WillSpec {
+                    qos: bit(m, 0).then_some(1 + (m as u8 & 1)),
+                    retain: bit(m, 1).then_some(true),
+                    delay_interval: bit(m, 2).then_some(0x0a0b_0c0d),
+                    payload_format: bit(m, 3).then_some(true),
+                    message_expiry: bit(m, 4).then_some(0x0e0f_1011),
+                    content_type: bit(m, 5).then(|| "ct".to_string()),
+                    response_topic: bit(m, 6).then(|| "rt".to_string()),
+                    correlation_data: bit(m, 7).then(|| vec![0xc1]),
+                    user_props: if bit(m, 8) { vec![("wk".into(), "wv".into()), ("wk".into(), "w2".into())] } else { vec![] },
+                    topic: "wt".into(),
+                    payload: vec![],
+                }),
+                username: Some("u".into()),
+                ..Default::default()
+            }),
+            write: full.clone(),
+        });
+    }
+    for q in 0u8..4 {
+        for m in 0u32..(1 << 9) {
+            out.push(Case {
+                req: Req::Ops {
+                    ops: vec![(
+                        0,
+                        OpSpec::Publish(PublishSpec {
+                            qos: (q > 0).then(|| q - 1),
+                            retain: bit(m, 0).then_some(true),
+                            topic: Some("pt".into()),
+                            payload: bit(m, 1).then(|| vec![0xaa, 0xbb]),
+                            payload_format: bit(m, 2).then_some(false),
+                            topic_alias: bit(m, 3).then_some(0x0102),
+                            message_expiry: bit(m, 4).then_some(0x0304_0506),
+                            correlation_data: bit(m, 5).then(|| vec![0xc2, 0xc3]),
+                            response_topic: bit(m, 6).then(|| "rt".to_string()),
+                            content_type: bit(m, 7).then(|| "ct".to_string()),
+                            user_props: if bit(m, 8) { vec![("pk".into(), "pv".into())] } else { vec![] },
+                        }),
+                    )],
+                    batch: false,
+                },
+                write: full.clone(),
+            });
+        }
+    }
+    for m in 0u32..(1 << 4) {
+        out.push(Case {
+            req: Req::Ops {
+                ops: vec![(
+                    0,
+                    OpSpec::Disconnect(DisconnectSpec {
+                        reason: bit(m, 0).then_some(0x04),
+                        session_expiry: bit(m, 1).then_some(0x0a0b_0c0d),
+                        reason_string: bit(m, 2).then(|| "bye".to_string()),
+                        user_props: if bit(m, 3) { vec![("dk".into(), "dv".into())] } else { vec![] },
+                    }),
+                )],
+                batch: false,
+            },
+            write: full.clone(),
+        });
+        for r in [None, Some(0u8), Some(0x18), Some(0x19)] {
+            out.push(Case {
+                req: Req::Authorize(AuthSpec {
+                    reason: r,
+                    method: bit(m, 0).then(|| "m".to_string()),
+                    data: bit(m, 1).then(|| vec![0xda]),
+                    user_props: if bit(m, 2) { vec![("ak".into(), "av".into())] } else { vec![] },
+                }),
+                write: if bit(m, 3) { WritePlan { per_call: 1, stall: Some(1) } } else { full.clone() },
+            });
+        }
+    }
     // every enum value once
     for r in rc::DISCONNECT_REASONS {
         out.push(Case {
